@@ -532,13 +532,14 @@ static void mcount_watch_init(void)
 			struct uftrace_mmap *map = mcount_sym_info.exec_map;
 			struct uftrace_symbol *sym;
 
-			w = xmalloc(sizeof(*w));
 			sym = find_symname(&map->mod->symtab, str + 4);
 			if (sym == NULL) {
 				pr_dbg("ignore watchpoint for %s\n", str);
-				free(w);
 				continue;
 			}
+
+			/* room for the last reported value (data[]), 'inited' cleared */
+			w = xzalloc(sizeof(*w) + sizeof(unsigned long));
 
 			w->kind = MCOUNT_WATCH_VAR;
 			w->addr = map->start + sym->addr;
